@@ -107,6 +107,18 @@ func main() {
 	case "upkey":
 		replayUpKey(*stacks)
 		return
+	case "f3d":
+		replayF3d(*stacks)
+		return
+	case "classify":
+		// print the signature of a saved goroutine dump (-replay <stacks file>)
+		data, err := os.ReadFile(*replay)
+		if err != nil {
+			panic(err)
+		}
+		b, _ := json.Marshal(classify(parseStacks(string(data))))
+		fmt.Println(string(b))
+		return
 	case "collide":
 		scenarioCollide(*stacks)
 		return
